@@ -1,6 +1,7 @@
 //! C13 — CompleteKarmarkarKarp is sound and complete for its tolerance.
 //!
 //! op: `ckk <tolerance f64 bits hex> <n> <w…> <m> <p…>` (i64 weights; `p` = initial array)
+//!     `ckkt <i32|u32|i64|u64> <tolerance bits> <n> <w…> <m> <p…>` (the same through another weight type)
 //! out: `ok <tol> | <ids>` | `notfound <tol>` | `lenmismatch` | `panic …`
 
 use crate::common::*;
@@ -100,6 +101,7 @@ pub fn generate(ctx: &mut Ctx) {
             }
         }
     }
+    huge_and_typed(ctx);
     // malformed stream: length mismatches
     for _ in 0..ctx.budget(50, 500) {
         let len = ctx.rng.usize(6);
@@ -117,9 +119,116 @@ fn format_op(tol: f64, ws: &[i64], p: &[usize]) -> String {
         .join(" ")
 }
 
-fn parse_op(op: &str) -> Option<(f64, Vec<i64>, Vec<usize>)> {
+fn format_op_t(ty: &str, tol: f64, ws: &[i128], p: &[usize]) -> String {
+    format!("ckkt {} {:x} {} {} {} {}", ty, tol.to_bits(), ws.len(), join(ws), p.len(), join(p))
+        .split_whitespace()
+        .collect::<Vec<_>>()
+        .join(" ")
+}
+
+/// (largest value of the type, `sum.to_f64()` as the type computes it)
+fn ty_max(ty: &str) -> i128 {
+    match ty {
+        "i32" => i32::MAX as i128,
+        "u32" => u32::MAX as i128,
+        "u64" => u64::MAX as i128,
+        _ => i64::MAX as i128,
+    }
+}
+
+/// HUGE / TYPED stream: weight vectors whose SUM lies in the upper half of the weight type's
+/// range (up to exactly the type's maximum: the contract only asks that sums do not overflow),
+/// through i64 and through the other integer types `CkkWeight` admits (i32, u32, u64), with
+/// tolerances across [0, 1] including 1, its float predecessor and the boundary values
+/// `m / total`. Every intermediate value of the search (differences and sums of two weights)
+/// is bounded by the total, so nothing may overflow; the oracles use i128.
+fn huge_and_typed(ctx: &mut Ctx) {
+    let tys = ["i64", "i32", "u32", "u64"];
+    let n = ctx.budget(600, 12000);
+    for k in 0..n {
+        let ty = tys[k % 4];
+        let max = ty_max(ty);
+        let len = 1 + ctx.rng.usize(if ctx.quick() { 9 } else { 13 });
+        // the target total: the type's maximum, a few below it (the float image of the sum
+        // then rounds up to 2^31 / 2^32 / 2^63 / 2^64), or somewhere in the upper half
+        let total: i128 = match ctx.rng.usize(8) {
+            0 => max,
+            1 => max - ctx.rng.range(0, 3) as i128,
+            2 => max - 511,
+            3 => max - 512,
+            4 => max - 1024 - ctx.rng.range(0, 4096) as i128,
+            5 => max / 2 + 1 + ctx.rng.range(0, 1000) as i128,
+            _ => max / 2 + (ctx.rng.below(1 << 30) as i128 * (max / 2)) / (1i128 << 30),
+        };
+        // split the total into `len` weights of one of several shapes
+        let mut ws: Vec<i128> = Vec::with_capacity(len);
+        let mut rest = total;
+        let shape = ctx.rng.usize(4);
+        for i in 0..len {
+            let w = if i + 1 == len {
+                rest
+            } else {
+                match shape {
+                    0 => rest / 2,                                   // geometric: one dominant
+                    1 => rest / (len - i) as i128,                   // nearly equal
+                    2 => (ctx.rng.below(1 << 30) as i128 * rest) / (1i128 << 30) / 2, // random
+                    _ => ctx.rng.range(0, 9) as i128,                // tiny, the last takes it all
+                }
+            };
+            ws.push(w);
+            rest -= w;
+        }
+        // shuffle positions
+        for i in (1..len).rev() {
+            let j = ctx.rng.usize(i + 1);
+            ws.swap(i, j);
+        }
+        let d = best_diff128(&ws).unwrap_or(0);
+        let tols: Vec<f64> = match ctx.rng.usize(4) {
+            0 => vec![1.0, f64::from_bits(1.0f64.to_bits() - 1), 0.0],
+            1 => vec![0.9, 0.75, 0.5 + (ctx.rng.below(1 << 20) as f64) / (1u64 << 21) as f64],
+            2 => {
+                let t0 = d as f64 / total as f64;
+                [-1i64, 0, 1]
+                    .iter()
+                    .map(|dl| f64::from_bits((t0.to_bits() as i64 + dl).max(0) as u64))
+                    .filter(|t| (0.0..=1.0).contains(t))
+                    .collect()
+            }
+            _ => vec![(ctx.rng.below(1 << 20) as f64) / (1u64 << 20) as f64],
+        };
+        for t in tols {
+            ctx.count(&format!("huge_{}", ty));
+            let p = vec![usize::MAX; len];
+            let op = if ty == "i64" && ctx.rng.usize(2) == 0 {
+                format_op(t, &ws.iter().map(|&w| w as i64).collect::<Vec<_>>(), &p)
+            } else {
+                format_op_t(ty, t, &ws, &p)
+            };
+            run_op(ctx, &op);
+        }
+    }
+    // the same small vectors through every type: the types must agree with i64
+    for _ in 0..ctx.budget(200, 4000) {
+        let len = 1 + ctx.rng.usize(8);
+        let ws: Vec<i128> = (0..len).map(|_| ctx.rng.range(0, 30) as i128).collect();
+        let t = *ctx.rng.pick(&[0.0, 0.05, 0.1, 0.3, 1.0]);
+        for ty in tys {
+            ctx.count(&format!("typed_small_{}", ty));
+            run_op(ctx, &format_op_t(ty, t, &ws, &vec![usize::MAX; len]));
+        }
+    }
+    ctx.notes.push("HUGE/TYPED stream: totals in the upper half of the weight type's range up to exactly its maximum (max, max-1..3, max-511, max-512, ...), through i64, i32, u32 and u64, four shapes (dominant, equal, random, tiny+one), tolerances 1, pred(1), 0, 0.5..1, the boundary d/total and its float neighbours; i128 oracles".to_string());
+}
+
+fn parse_op(op: &str) -> Option<(String, f64, Vec<i128>, Vec<usize>)> {
     let mut it = op.split_whitespace();
-    if it.next()? != "ckk" {
+    let ty = match it.next()? {
+        "ckk" => "i64".to_string(),
+        "ckkt" => it.next()?.to_string(),
+        _ => return None,
+    };
+    if !["i64", "i32", "u32", "u64"].contains(&ty.as_str()) {
         return None;
     }
     let tol = f64::from_bits(u64::from_str_radix(it.next()?, 16).ok()?);
@@ -133,20 +242,24 @@ fn parse_op(op: &str) -> Option<(f64, Vec<i64>, Vec<usize>)> {
     for _ in 0..m {
         p.push(it.next()?.parse().ok()?);
     }
-    Some((tol, ws, p))
+    Some((ty, tol, ws, p))
 }
 
 /// Oracle: smallest achievable |load0 - load1| by subset-sum DP (bitset over sums).
 fn best_diff(ws: &[i64]) -> Option<i64> {
-    let total: i64 = ws.iter().sum();
+    best_diff128(&ws.iter().map(|&w| w as i128).collect::<Vec<_>>()).map(|d| d as i64)
+}
+
+fn best_diff128(ws: &[i128]) -> Option<i128> {
+    let total: i128 = ws.iter().sum();
     if total > 200_000 {
         if ws.len() > 22 {
             return None;
         }
         // brute force over subsets
-        let mut best = i64::MAX;
+        let mut best = i128::MAX;
         for m in 0u32..(1u32 << ws.len().saturating_sub(1)) {
-            let mut s = 0i64;
+            let mut s = 0i128;
             for (i, w) in ws.iter().enumerate() {
                 if m >> i & 1 == 1 {
                     s += w;
@@ -166,30 +279,65 @@ fn best_diff(ws: &[i64]) -> Option<i64> {
             }
         }
     }
-    let mut best = i64::MAX;
+    let mut best = i128::MAX;
     for s in 0..=total as usize {
         if reach[s] {
-            best = best.min((total - 2 * s as i64).abs());
+            best = best.min((total - 2 * s as i128).abs());
         }
     }
     Some(best)
+}
+
+fn call_ckk(ty: &str, tol: f64, p: &mut [usize], ws: &[i128]) -> Result<(), coupe::Error> {
+    let a = coupe::CompleteKarmarkarKarp { tolerance: tol };
+    let mut a = a;
+    match ty {
+        "i32" => a.partition(p, ws.iter().map(|&w| w as i32).collect::<Vec<_>>()),
+        "u32" => a.partition(p, ws.iter().map(|&w| w as u32).collect::<Vec<_>>()),
+        "u64" => a.partition(p, ws.iter().map(|&w| w as u64).collect::<Vec<_>>()),
+        _ => a.partition(p, ws.iter().map(|&w| w as i64).collect::<Vec<_>>()),
+    }
 }
 
 pub fn run_op(ctx: &mut Ctx, op: &str) {
     if ctx.hang_limit_reached() {
         return;
     }
-    let Some((tol, ws, p0)) = parse_op(op) else {
+    let Some((ty, tol, ws, p0)) = parse_op(op) else {
         ctx.record(op.to_string(), "bad-op".into(), false);
         return;
     };
+    let max = ty_max(&ty);
+    let sum: i128 = ws.iter().sum();
+    if ws.iter().any(|&w| w < 0) || sum > max {
+        // outside the contract (negative weight or a sum that overflows the type): not run
+        ctx.record(op.to_string(), "out-of-contract".into(), false);
+        return;
+    }
     let mut p = p0.clone();
     let ws2 = ws.clone();
-    let res = catch(|| coupe::CompleteKarmarkarKarp { tolerance: tol }.partition(&mut p, ws2));
-    let sum: i64 = ws.iter().sum();
-    // the bound the property names: tolerance x total, converted to the weight type
-    let tol_t = (sum as f64 * tol) as i64;
+    let ty2 = ty.clone();
+    let res = catch(move || {
+        let r = call_ckk(&ty2, tol, &mut p, &ws2);
+        (r, p)
+    });
+    // the bound the property names: tolerance x total, converted to the weight type (no load
+    // difference exceeds the total, so a bound above the type's maximum means "any partition")
+    let sum_f = match ty.as_str() {
+        "u64" => (sum as u64) as f64,
+        _ => (sum as i64) as f64,
+    };
+    let tol_t: i128 = {
+        let x = sum_f * tol;
+        let hi = (max + 1) as f64; // 2^31, 2^32, 2^63, 2^64: exact
+        if x >= hi { sum } else { x as i128 }
+    };
     let nontrivial = ws.len() >= 2 && ws.len() == p0.len();
+    let (res, p) = match res {
+        Caught::Ok((r, p)) => (Caught::Ok(r), p),
+        Caught::Panic(m) => (Caught::Panic(m), p0.clone()),
+        Caught::Hang => (Caught::Hang, p0.clone()),
+    };
     let (out, verdict): (String, Option<(&str, String)>) = match res {
         Caught::Ok(Ok(())) => {
             if ws.is_empty() {
@@ -199,8 +347,8 @@ pub fn run_op(ctx: &mut Ctx, op: &str) {
                 if p.iter().any(|&i| i > 1) {
                     v = Some(("ckk-id-out-of-range", format!("ids {:?}", p)));
                 } else {
-                    let l0: i64 = ws.iter().zip(&p).filter(|(_, &i)| i == 0).map(|(w, _)| *w).sum();
-                    let l1: i64 = sum - l0;
+                    let l0: i128 = ws.iter().zip(&p).filter(|(_, &i)| i == 0).map(|(w, _)| *w).sum();
+                    let l1: i128 = sum - l0;
                     if (l0 - l1).abs() > tol_t {
                         v = Some((
                             "ckk-unsound",
@@ -216,7 +364,7 @@ pub fn run_op(ctx: &mut Ctx, op: &str) {
         }
         Caught::Ok(Err(coupe::Error::NotFound)) => {
             let mut v = None;
-            if let Some(b) = best_diff(&ws) {
+            if let Some(b) = best_diff128(&ws) {
                 if b <= tol_t {
                     v = Some((
                         "ckk-incomplete",
